@@ -478,15 +478,112 @@ impl Check for C17Wide {
     }
 }
 
+/// Stateful stages see one sequence of values, however it is spread over files: the values of
+/// f1, then f2, ... - `--unique`, `--sort-by`, `--group-by`, `--skip/--take`, `--merge` and
+/// `&index` over several files must give what the same values give on standard input.
+#[derive(Clone, Debug, Serialize, Deserialize)]
+pub struct CaseFiles {
+    pub texts: Vec<String>,
+    /// number of values in each file (the rest goes to the last file)
+    pub split: Vec<usize>,
+    pub pipeline: u8,
+}
+
+const STATEFUL: &[&[&str]] = &[
+    &["--unique"],
+    &["--sort-by=."],
+    &["--sort-by=(stringify .) DESC", "--unique"],
+    &["--group-by=(stringify .)"],
+    &["--merge"],
+    &["--skip=1", "--take=3"],
+    &["--select=.=v", "--select=&index=i", "--unique"],
+    &["--unique", "--sort-by=.", "--skip=1", "--take=2", "--merge"],
+    &["--filter=(= (% &index 2) 0)", "--select=.=v"],
+    &["--select=.=v", "--output-style=csv", "--unique"],
+];
+
+pub struct C17Files;
+impl Check for C17Files {
+    type Case = CaseFiles;
+    fn name(&self) -> &'static str {
+        "C17.files_stateful"
+    }
+    fn cases(&self, tier: Tier) -> u64 {
+        tier.pick(6_000, 200_000)
+    }
+    fn strategy(&self, _t: Tier) -> BoxedStrategy<CaseFiles> {
+        // few distinct values, so that duplicates and ties straddle the file boundaries
+        let text = prop::sample::select(vec!["1", "2", "1.0", "\"a\"", "\"b\"", "null", "[1]", "[1.0]", "{\"k\":1}", "{\"k\":2}", "true", "[]", "3"]).prop_map(|s| s.to_string());
+        (vec(text, 0..12), vec(0usize..5, 1..4), 0..STATEFUL.len() as u8).prop_map(|(texts, split, pipeline)| CaseFiles { texts, split, pipeline }).boxed()
+    }
+    fn check(&self, c: &CaseFiles) -> CaseResult {
+        let args: Vec<String> = STATEFUL[c.pipeline as usize % STATEFUL.len()].iter().map(|s| s.to_string()).collect();
+        let joined: String = c.texts.iter().map(|t| format!("{}\n", t)).collect();
+        let via_stdin = run(&args, joined.as_bytes());
+        if !via_stdin.res.is_ok() {
+            return CaseResult::Fail(format!("run on standard input failed: {} (args {:?})", via_stdin.res.short(), args));
+        }
+        let dir = tmp_dir().join(format!("c17f-{}", SEQ.fetch_add(1, Ordering::Relaxed)));
+        let _ = std::fs::create_dir_all(&dir);
+        let mut paths = Vec::new();
+        let mut at: usize = 0;
+        let mut sizes = c.split.clone();
+        sizes.push(usize::MAX);
+        for (k, n) in sizes.iter().enumerate() {
+            let end = at.saturating_add(*n).min(c.texts.len());
+            let body: String = c.texts[at..end].iter().map(|t| format!("{}\n", t)).collect();
+            let p = dir.join(format!("{}{}.json", ["q", "d", "z", "b", "m"][k % 5], k));
+            if std::fs::write(&p, body).is_err() {
+                let _ = std::fs::remove_dir_all(&dir);
+                return CaseResult::Discard("cannot write temp file".into());
+            }
+            paths.push(p.to_str().unwrap().to_string());
+            at = end;
+        }
+        // files first: `--merge <path>` would read the path as the optional value of --group-by
+        let mut a: Vec<String> = paths.clone();
+        a.extend(args.iter().cloned());
+        let via_files = run(&a, b"");
+        let _ = std::fs::remove_dir_all(&dir);
+        if via_files.res != via_stdin.res || via_files.stdout != via_stdin.stdout {
+            return CaseResult::Fail(format!(
+                "the values {:?} spread over {} files (sizes {:?}) give {} {}, on standard input they give {} (args {:?})",
+                c.texts,
+                paths.len(),
+                c.split,
+                via_files.res.short(),
+                esc_trunc(&via_files.stdout, 300),
+                esc_trunc(&via_stdin.stdout, 300),
+                args
+            ));
+        }
+        let files_with_values = {
+            let mut n = 0;
+            let mut at: usize = 0;
+            for s in &sizes {
+                let end = at.saturating_add(*s).min(c.texts.len());
+                if end > at {
+                    n += 1;
+                }
+                at = end;
+            }
+            n
+        };
+        CaseResult::Pass(Info::new(files_with_values >= 2 && c.texts.len() >= 3).class_if(files_with_values >= 3, "three_or_more_files_with_values").class_if(sizes.iter().any(|s| *s == 0), "empty_file").obs(json!({"args": args, "files": paths.len(), "stdout": esc_trunc(&via_stdin.stdout, 200)})))
+    }
+}
+
 pub fn run_all(ctx: &mut Ctx) {
     ctx.rule = "0..10 ASCII value texts (independent spellings incl. inner line breaks) with whitespace / touching / garbage gaps x read-chunk schedules (1-byte, random sizes, with Interrupted) x stdin vs file x partitions of the bytes into 1..4 files at arbitrary offsets (also inside a value) x --only-objects-and-arrays. Oracle: identical stdout for every delivery; joint multi-file run = concatenation of single-file runs; &index = 0,1,2.. over the run, &index-in-file restarts per file, &file-name = the path; (line,col) pairs map through the line-feed positions to a byte range that contains the value's text, contiguous with the previous range when nothing lies between. non-trivial = >= 2 files that each yield a row, or >= 3 processed values with >= 2 rows beyond line 1".into();
     ctx.assumptions = vec!["position checks use ASCII content so that byte and character columns coincide".into()];
     ctx.rule.push_str(". C17.delivery_wide: streams over the full Unicode alphabet, long streams (10-100 KiB) and streams with garbage incl. invalid UTF-8 x chunk schedules (1-byte, 1..8, sizes around 16/64/256/4096/8192, with Interrupted) x 4 pipelines x stdin vs file: identical stdout, stderr and result");
     C17Delivery.run(ctx);
     C17Wide.run(ctx);
+    ctx.rule.push_str(". C17.files_stateful: 0..11 values from a small set (duplicates and ties) spread over 2..4 files between values (also empty files) x 10 stateful pipelines (--unique, --sort-by, --group-by, --merge, --skip/--take, &index): same result as the values on standard input");
+    C17Files.run(ctx);
     let _ = std::fs::remove_dir_all(tmp_dir());
 }
 
 pub fn checks() -> Vec<Box<dyn DynCheck>> {
-    vec![Box::new(C17Delivery), Box::new(C17Wide)]
+    vec![Box::new(C17Delivery), Box::new(C17Wide), Box::new(C17Files)]
 }
